@@ -77,6 +77,10 @@ def parseOp (toks : List String) : Option Op :=
   | "txs" :: rest => do
     let p ← (← kv rest "node").toNat?
     pure (.txs p)
+  | "own" :: rest => do
+    let p ← (← kv rest "node").toNat?
+    let k ← (← kv rest "idx").toNat?
+    pure (.own p k)
   | "byz" :: rest => do
     let sender ← (← kv rest "sender").toNat?
     let ok ← parseBool (← kv rest "ok")
@@ -104,7 +108,14 @@ def parseOp (toks : List String) : Option Op :=
 
 def opNode : Op → Option Nat
   | .deliver p _ _ => some p | .block p _ => some p | .claim p _ _ _ _ => some p
-  | .fire p _ _ => some p | .txs p => some p | .byz _ => none
+  | .fire p _ _ => some p | .txs p => some p | .own p _ => some p | .byz _ => none
+
+/-- `drain=0` on a node op: the node handles the input only and leaves its own messages queued
+(they are heard later through `own` ops, in any order); default: FIFO drain as `Tmv.Cons.step` -/
+def parseDrain (toks : List String) : Option Bool :=
+  match kv toks "drain" with
+  | none => some true
+  | some s => parseBool s
 
 def showBid : Bid → String
   | none => "nil"
@@ -170,9 +181,9 @@ def step (st : St) (toks : List String) : St × String :=
     | some (c, ids) => ({ cfg := some c, ids := ids, net := Net.init }, "ok")
     | none => (st, "bad-op")
   | _ =>
-    match st.cfg, parseOp toks with
-    | some nc, some op =>
-      match st.net.apply nc op with
+    match st.cfg, parseOp toks, parseDrain toks with
+    | some nc, some op, some drain =>
+      match st.net.apply nc drain op with
       | none => (st, "refused")
       | some net' =>
         let st' := { st with net := net' }
@@ -186,7 +197,7 @@ def step (st : St) (toks : List String) : St × String :=
           match op with
           | .byz m => (st', s!"+{st.net.log.length} " ++ showMsg m)
           | _ => (st', "ok")
-    | _, _ => (st, "bad-op")
+    | _, _, _ => (st, "bad-op")
 
 def machine : Machine := { σ := St, init := ⟨none, 0, Net.init⟩, step := step }
 
